@@ -474,6 +474,7 @@ class Evaluator:
         self.cat = cm["cat"]
         self.found: List[Tuple[str, Dict[str, Any], str]] = []
         self.nontrivial = False
+        self.tie_x = False
         self.pres: Dict[Any, Tuple[bool, Any, bool]] = {}  # p -> (declared valid, converted value, formula ok)
 
     def viol(self, op: str, mode: str, vpart: Dict[str, Any], detail: str) -> None:
@@ -537,6 +538,7 @@ class Evaluator:
             return None
         if not (type(img) is type(x) and img == x):
             self.nontrivial = True
+        self.tie_x = acc.has_tie()
         return img if want is True else None
 
     # ---- physical side ----
@@ -602,9 +604,6 @@ class Evaluator:
         res = self.pres.get(vkey(img))
         if res is None or not res[0] or not res[2]:
             return  # not declared valid / raised / formula already wrong or tie: reported (or excused) elsewhere
-        acc = ref.int_to_phys_accept(x)
-        if isinstance(acc, R.Accept) and acc.has_tie():
-            return
         r = res[1]
         self.part.count("roundtrips")
         self.part.count("evaluations")
@@ -622,12 +621,12 @@ class Evaluator:
                       f"x = {short(x)} -> {short(img)} -> {short(r)}: converting the image back does not give x although the method is injective")
 
     def run(self, xs: Iterable[Any], extra_ps: Iterable[Any] = (), full: bool = True, derive_ps: bool = True) -> None:
-        pairs: List[Tuple[Any, Any]] = []
+        pairs: List[Tuple[Any, Any, bool]] = []
         images: List[Any] = []
         for x in xs:
             img = self.internal(x)
             if img is not None:
-                pairs.append((x, img))
+                pairs.append((x, img, self.tie_x))
                 images.append(img)
         ps: List[Any] = list(extra_ps)
         if derive_ps == "images":
@@ -636,8 +635,9 @@ class Evaluator:
             ps += physical_candidates(self.ref, images, self.cm, full)
         for p in ps:
             self.physical(p)
-        for x, img in pairs:
-            self.roundtrip(x, img)
+        for x, img, tie in pairs:
+            if not tie:
+                self.roundtrip(x, img)
 
 
 def eval_method(part: Part, it: str, pt: str, cm: Dict[str, Any], cmobj: Any, full: bool) -> None:
